@@ -5,7 +5,7 @@ PROP_UNITS = {
     # int_bits_signed, the val/ref forms of the float and rational arms), hence the forms agree wherever the
     # postcondition determines the result. Forms not instantiated are listed in those units' own `undecided`.
     'C15': {'verus': ['int_add_ops', 'int_add_ops_signed', 'int_add_ops_panic', 'int_mul_ops', 'int_ops_sign',
-                      'int_div_sign', 'int_bits_signed', 'int_shift_ops', 'ratio_ops', 'ratio_int_ops', 'float_add'],
+                      'int_div_sign', 'int_bits_signed', 'int_bits_large', 'int_shift_ops', 'ratio_ops', 'ratio_int_ops', 'float_add'],
             'undecided': ['op-assign forms and primitive-operand forwarding macros (helper_macros.rs) are only '
                           'covered by the bounded Kani group int_forms where registered',
                           'FBig operator vs Context method at the same precision: only float_mul / float_add_ops']},
@@ -20,7 +20,7 @@ PROP_UNITS = {
     # C13: inv / division of residues is the extended gcd; clone_from across rings (bounded Kani)
     'C13': {'verus': ['int_gcd_small', 'int_gcd_ops'], 'kani': ['int_modclone']},
     # C06 names the to_int family explicitly
-    'C06': {'verus': ['float_fbig_to_int', 'float_conv']},
+    'C06': {'verus': ['float_fbig_to_int', 'float_conv', 'float_digit_utils']},      # to_int truncates through shr_digits
     # C14: AbsOrd / NumOrd of floats of one base go through repr_cmp_same_base (unit float_cmp)
     'C14': {'verus': ['float_cmp']},
     # C17: the raw-pointer shift kernel (out-of-bounds writes are Kani pointer checks)
@@ -28,7 +28,7 @@ PROP_UNITS = {
     # C19: byte forms must be identical across word sizes = canonical (minimal) form, asserted by the int_bytes oracle
     'C19': {'kani': ['int_bytes']},
     # C08: decode is proved complete by Kani (base_bit); float_from_prim composes it
-    'C08': {'kani': ['base_bit'], 'verus': ['float_repr_round'],
+    'C08': {'kani': ['base_bit'], 'verus': ['float_repr_round', 'float_split'],
             'undecided': ['float parser and printer (str / core::fmt)', 'convert_base (ln/exp at doubled precision, f32 '
                           'estimates)', 'with_precision: one correct rounding (float_conv)']},
 }
